@@ -165,6 +165,7 @@ INJECT = [
     ("native/data_types.rs", "src/engine/data_types/data.rs", "verif_nat_data_types", ("native",)),
     ("native/inner_locustdb.rs", "src/scheduler/inner_locustdb.rs", "verif_nat_inner_locustdb", ("native",)),
     ("native/server.rs", "src/server/mod.rs", "verif_nat_server", ("native",)),
+    ("native/input_column.rs", "src/ingest/input_column.rs", "verif_nat_input_column", ("native",)),
 ]
 
 
